@@ -2,13 +2,16 @@
 package c19
 
 import (
+	"bufio"
 	"bytes"
 	"errors"
 	"fmt"
+	"io"
 	"math"
 	"math/big"
 	"strings"
 	"testing"
+	"testing/iotest"
 	"time"
 
 	geom "github.com/twpayne/go-geom"
@@ -148,6 +151,9 @@ func propTrack(tr Track) error {
 	}
 	if got == nil || got.LineString == nil {
 		return fmt.Errorf("igc.Read returned nil")
+	}
+	if err := sameThroughAnyReader([]byte(text), got, rerr); err != nil {
+		return err
 	}
 	// what Read returned is the caller's: another stream read afterwards changes nothing in it
 	kept := append([]float64(nil), got.LineString.FlatCoords()...)
@@ -384,6 +390,77 @@ func genStream(t *rapid.T) Stream {
 	return Stream{Class: class, Data: data}
 }
 
+// lastEOFReader hands out its data in pieces of n bytes and returns io.EOF together
+// with the last piece (as compressed and network streams do).
+type lastEOFReader struct {
+	data []byte
+	n    int
+}
+
+func (r *lastEOFReader) Read(p []byte) (int, error) {
+	if len(r.data) == 0 {
+		return 0, io.EOF
+	}
+	n := min(r.n, len(p), len(r.data))
+	copy(p, r.data[:n])
+	r.data = r.data[n:]
+	if len(r.data) == 0 {
+		return n, io.EOF
+	}
+	return n, nil
+}
+
+// sameThroughAnyReader reads data through readers that deliver the same bytes in
+// other legal ways (one byte at a time, half of what is asked for, the last bytes
+// together with io.EOF, a *bufio.Reader with a small buffer) and compares each
+// result with want, what a plain in-memory reader gave.
+func sameThroughAnyReader(data []byte, want *igc.T, wantErr error) error {
+	sig := func(t *igc.T, err error) string {
+		var sb strings.Builder
+		if t != nil && t.LineString != nil {
+			fmt.Fprintf(&sb, "%d ordinates;", len(t.LineString.FlatCoords()))
+			for _, v := range t.LineString.FlatCoords() {
+				fmt.Fprintf(&sb, "%x,", math.Float64bits(v))
+			}
+			fmt.Fprintf(&sb, " headers %v;", t.Headers)
+		} else {
+			sb.WriteString("nil track;")
+		}
+		if err != nil {
+			sb.WriteString(" error: " + err.Error())
+		}
+		return sb.String()
+	}
+	ws := sig(want, wantErr)
+	piece := 1 + len(data)%61
+	type way struct {
+		name string
+		r    io.Reader
+	}
+	ways := []way{
+		{"io.EOF with the last bytes", iotest.DataErrReader(bytes.NewReader(data))},
+		{"pieces, io.EOF with the last piece", &lastEOFReader{data: append([]byte(nil), data...), n: piece}},
+	}
+	if len(data) <= 3000 { // the slow ones only for streams of ordinary length
+		ways = append(ways,
+			way{"one byte at a time", iotest.OneByteReader(bytes.NewReader(data))},
+			way{"half of what is asked for", iotest.HalfReader(bytes.NewReader(data))},
+			way{"a *bufio.Reader of 16 bytes", bufio.NewReaderSize(&lastEOFReader{data: append([]byte(nil), data...), n: 5000}, 16)})
+	}
+	for _, w := range ways {
+		name, r := w.name, w.r
+		var got *igc.T
+		var rerr error
+		if err := run.Bounded(func() error { got, rerr = igc.Read(r); return nil }); err != nil {
+			return fmt.Errorf("igc.Read through a reader that delivers %s: %v", name, err)
+		}
+		if gs := sig(got, rerr); gs != ws {
+			return fmt.Errorf("igc.Read through a reader that delivers %s differs from reading the same bytes from memory:\n got  %s\n want %s", name, clip(gs), clip(ws))
+		}
+	}
+	return nil
+}
+
 func propStream(s Stream) error {
 	var got *igc.T
 	var rerr error
@@ -420,7 +497,7 @@ func propStream(s Stream) error {
 		}
 	}
 	_ = got.HasCoords()
-	return nil
+	return sameThroughAnyReader(s.Data, got, rerr)
 }
 
 func classifyStream(s Stream) ([]string, bool) {
